@@ -57,8 +57,22 @@ def fill(claim, na):
           'only attributes already assigned. Equality of numerical payloads is not decided.',
           'trusts python ast, statically computed MRO, h5py/pickle semantics; keys built '
           'dynamically (loops) are treated as unknown, not as violations', 'C17')
+    claim('C15', 'structural rules over truncate()/_combine_constraints/svd_theta: '
+          'argument-role, ordering vs. docstring table, guard/option dependence, polynomial slice '
+          'bounds, same-mask pairing, result-flow',
+          PARTIAL + 'The constraint pipeline of truncate(): mask starts all-True and is only '
+          'updated by _combine_constraints with the accumulated mask FIRST (priority), constraints '
+          'are combined in the documented order (read from the docstring), each under a test of '
+          'its own option, _combine_constraints falls back to its first argument, chi_max/chi_min '
+          'slices have the exact symbolic bounds, comparison directions, kept set = suffix of the '
+          'ascending order, norm and error computed from one mask and its complement; '
+          'svd_theta/_eig_based_svd/eigh_rho: same mask for S, U, VH with axes 1/0, '
+          'renormalisation multiplied by the kept norm, the error of truncate() is what is '
+          'returned; TruncationError arithmetic. Numerical statements about spectra are not '
+          'decided.', 'trusts python ast and sa/linform.py; a few idioms are matched on '
+          'normalised source text (listed in sa/rules/c15.py)', 'C15')
     for pid in ['C01', 'C02', 'C03', 'C04', 'C05', 'C06', 'C07', 'C09', 'C10', 'C11', 'C12',
-                'C13', 'C15', 'C16', 'C19']:
+                'C13', 'C16', 'C19']:
         na(pid, 'static rule planned in DESIGN.md but not built yet (work in progress); not '
            'claimed until its check exists')
     na('C08', 'every clause quantifies over numerical values (expectation values, overlaps, Born '
